@@ -90,7 +90,9 @@ assert not VALUES['f1'] and not VALUES['f2'] and not VALUES['conformF']
 assert not VALUES['customF'] and VALUES['v1']
 
 
-class Boom(Exception):
+class Boom(StopIteration):
+    # (a StopIteration: what a hook or __conform__ raises propagates unchanged
+    # whatever its type, also when the caller happens to loop or generate)
     pass
 
 
@@ -163,6 +165,21 @@ def make_iface(kind):
 IFACE = dict((k, make_iface(k)) for k in
              ('noCustom', 'none', 'value', 'falsy', 'raises', 'delegate'))
 
+
+def make_derived(kind):
+    """an interface that INHERITS the custom __adapt__ of IFACE[kind] and
+    adds an unrelated interface method of its own"""
+    class IDer(IFACE[kind]):
+        __module__ = MOD + '.' + kind + '.derived'
+
+        @interfacemethod
+        def extra(self):
+            return 'extra'
+    return IDer
+
+
+IDER = dict((k, make_derived(k)) for k in IFACE if k != 'noCustom')
+
 # --------------------------------------------------------------------------
 # objects
 
@@ -190,8 +207,8 @@ def _conform_body(self, iface, kind):
 _classes = {}
 
 
-def get_class(conform, provided, custom):
-    key = (conform, provided, custom)
+def get_class(conform, provided, custom, derived=False):
+    key = (conform, provided, custom) + (('derived',) if derived else ())
     cls = _classes.get(key)
     if cls is not None:
         return cls
@@ -210,9 +227,10 @@ def get_class(conform, provided, custom):
         def __conform__(self, iface, kind=conform):
             return _conform_body(self, iface, kind)
         ns['__conform__'] = __conform__
-    cls = type('C_%s_%s_%s' % key, (object,), ns)
+    cls = type('C_' + '_'.join(map(str, key)), (object,), ns)
     if provided:
-        classImplements(cls, IMark, IFACE[custom])
+        classImplements(cls, IMark,
+                        IDER[custom] if derived else IFACE[custom])
     else:
         classImplements(cls, IMark)
     _classes[key] = cls
@@ -271,7 +289,7 @@ def get_registry(i, kind):
                 LOG.append('h%d-badargs' % i)
             return _answer(i, kind)
         r = AdapterRegistry()
-        for iface in IFACE.values():
+        for iface in list(IFACE.values()) + list(IDER.values()):
             r.register([IMark], iface, '', factory)
         _registries[(i, kind)] = r
     return r
@@ -332,7 +350,13 @@ def execute(inp, how):
     global CTX
     how, _, attach = how.partition('/')
     c = CTX = Ctx(inp)
-    if attach:
+    if attach == 'derived':
+        # the interface INHERITS its custom __adapt__ (and adds another
+        # interface method): the inherited one must be called just the same
+        c.I = IDER[inp['custom']]
+        c.obj = get_class(inp['conform'], inp['provided'], inp['custom'],
+                          derived=True)()
+    elif attach:
         kind = inp['conform']
         base = get_class('absent', inp['provided'], inp['custom'])
         if attach == 'instancefunc':
@@ -394,6 +418,8 @@ for childlib.CASE[0], case in enumerate(job['cases']):
         # __conform__ need not be a method of the class: a plain function
         # stored on the instance, or a staticmethod, is called just the same
         ways += ['pos/instancefunc', 'pos/staticmethod']
+    if inp['custom'] != 'noCustom':
+        ways.append('pos/derived')
     for how in ways:
         try:
             c, out, log = execute(inp, how)
